@@ -60,6 +60,7 @@ theorem normcoeffs_monic (p : List K) (hp : lc p ≠ 0) : (normCoeffs normIdx p)
     (an error value in the driver; SymPy returns `nan`). -/
 theorem normcoeffs_zero (p : List K) (hp : lc p = 0) : allCoeffs p = [0] := by
   simp [allCoeffs, (lc_eq_zero_iff p).1 hp]
+example : lc ([0, 0] : List ℚ) = 0 := by decide +kernel
 
 /-! ## 2. Multiplying / dividing top and bottom -/
 
@@ -171,6 +172,7 @@ theorem simplify_terms_value (simp : RExpr K → RExpr K) (env : Env K)
     ∃ e, simplifyTerms stInit stOp simp ts = some e ∧ e.eval env = (ts.map (fun e => e.eval env)).sum :=
   simplifyTerms_value simp env hs ts
 example : ∀ e : RExpr ℚ, (id e).eval envQ = e.eval envQ := fun _ => rfl
+example : rfFactors exQ ≠ [] := by simp [rfFactors]
 
 /-- the factors / terms the driver runs the loops on have the value of the expression -/
 theorem factors_of_expression (R : RF K) (env : Env K) (hE : IsExp env) :
@@ -195,10 +197,15 @@ def exR : RF ℚ := ⟨[1, 5, 3], [4, 6, 2], 0, 0⟩
 example : pfCheck (recipRF exR).B (recipRF exR).A [1/4] [(-1, 1), (-1/2, 1)] [(1/2, -1, 1), (3/8, -1/2, 1)] = true := by
   decide +kernel
 
+example : exR.delay = 0 := rfl
+example : envQ.x ≠ 0 := by norm_num [envQ]
+example : Poly.eval exR.A envQ.x ≠ 0 := by norm_num [exR, envQ, Poly.eval]
+
 /-- error branch: with a delay the method has no result -/
 theorem recippartfrac_delay (R : RF K) (Q : List K) (terms : List (K × K × Nat)) (env : Env K) (σ : K)
     (hd : R.delay ≠ 0) : recippartfrac σ recipIn recipOut R Q terms env = none := by
   simp [recippartfrac, hd]
+example : exQ.delay ≠ 0 := by norm_num [exQ]
 
 /-! ## 8. `rationalize_denominator` (complex coefficients, real variable ω or f) -/
 
@@ -237,6 +244,7 @@ theorem poles_dict_sound (A : List K) (l : List (K × Nat)) (h : rootsCheck A l 
     rw [this]; exact rootsCheck_eval h x
   · rw [h3]; exact rootsCheck_degree h hA
 example : rootsCheck ([2, 5, 4, 1] : List ℚ) [(-1, 1), (-2, 1), (-1, 1)] = true := by decide +kernel
+example : lc ([2, 5, 4, 1] : List ℚ) ≠ 0 := by decide +kernel
 
 /-- **roots_aslist_value**: the `aslist=True` form repeats every root by its multiplicity: same product, and the
     length is the total multiplicity. -/
